@@ -1,6 +1,12 @@
 """C30 — the lock-free LIFO is a linearizable stack (E3: history recorder + WGL checker; conservation stress)."""
 import json
 
+META = dict(
+    level='exploration', engine='E3 history recorder + WGL linearizability checker',
+    technique='runtime monitoring: recorded concurrent histories checked for linearizability against a sequential stack (WGL), conservation/ownership monitor under stress with injected delays, ASan+UBSan',
+    text='Thousands of short concurrent push/chain/pop/try_pop histories on the real LIFO (inline and library builds, sanitizer and production flavours, yield injection between head read and CAS) are recorded at the client boundary and searched for a linearization; long stress runs check conservation and single ownership. Held on the histories observed; interleavings are sampled, not enumerated.',
+    note='Trusts the sequential stack model, the stamp counter (one atomic) and the WGL checker in the harness; histories over the node budget are inconclusive.')
+
 RULE = ('short concurrent histories (2..6 threads, <=36 ops, unique element ids, elements recycled) checked with a '
         'WGL search against a sequential stack; non-trivial = operations of different threads overlapped in stamp time; '
         'distinct = distinct interleaving signatures (sequence of per-thread invocation/response events)')
